@@ -21,6 +21,9 @@ Tuples == CASE KeySet = "one"     -> {<<"a">>, <<"b">>, <<"c">>}
             [] KeySet = "collide" -> {<<"x|y", "z">>, <<"x", "y|z">>, <<"a", "b">>}
             [] KeySet = "nulls"   -> {<<"">>, <<Nil>>, <<"a">>}
             [] KeySet = "pairs"   -> {<<"a", "">>, <<"a", Nil>>, <<"", "a">>, <<"a|", "">>}
+            \* values holding the escape character of the engine's own key encoding (window/group_key.go: "\" escapes "|" and itself, NULL is "\N")
+            [] KeySet = "esc"     -> {<<"x\\", "y|z">>, <<"x|y\\", "z">>, <<"x\\|y", "z">>}
+            [] KeySet = "escnull" -> {<<"\\N">>, <<Nil>>, <<"N">>, <<"\\">>}
 
 Enc(t) == IF Encoder = "pipe" THEN PipeJoin(t) ELSE Tagged(t)
 Codes == {Enc(t) : t \in Tuples}
